@@ -208,13 +208,18 @@ func (b *Batch) decode(data []byte, expectedLen int) error {
 		b.internalLen += index.keyLen + index.valueLen + 8
 		return nil
 	})
+	if err == nil && expectedLen >= 0 && len(b.index) != expectedLen {
+		err = newErrBatchCorrupted(fmt.Sprintf("invalid records length: %d vs %d", expectedLen, len(b.index)))
+	}
 	if err != nil {
-		return err
+		// Do not keep the records decoded so far together with a buffer that
+		// does not decode: such a batch would be written to the journal as is
+		// and fail the journal replay.
+		b.data = nil
+		b.index = b.index[:0]
+		b.internalLen = 0
 	}
-	if expectedLen >= 0 && len(b.index) != expectedLen {
-		return newErrBatchCorrupted(fmt.Sprintf("invalid records length: %d vs %d", expectedLen, len(b.index)))
-	}
-	return nil
+	return err
 }
 
 func (b *Batch) putMem(seq uint64, mdb *memdb.DB) error {
